@@ -114,6 +114,7 @@ func runC02(c *fw.Ctx, idx int) fw.Result {
 			res.Count("cases_with_query_named_like_a_file", 1)
 		}
 	}
+	sf.Text = noFinalNL(r, sf.Text)
 	omitIns := r.Chance(0.25)
 	omitRef := r.Chance(0.25)
 	s, e, wk := window(r, L)
